@@ -84,6 +84,7 @@ PSET_EXACT = {
     "core::num::nonzero::NonZero::<T>::new_unchecked",
     "core::iter::traits::iterator::Iterator::max_by", "alloc::slice::<impl [T]>::concat",
     "core::time::Duration::new", "std::time::Instant::duration_since",
+    "alloc::vec::from_elem", "alloc::vec::Vec::<T>::with_capacity", "alloc::string::String::with_capacity", "alloc::vec::Vec::<T, A>::reserve",
 }
 PSET_RE = re.compile(r"^core::num::<impl [iu](8|16|32|64|128|size)>::(pow|abs|div_euclid|rem_euclid|next_power_of_two|isqrt|ilog|ilog2|ilog10)$")
 PANIC_FNS = ("core::panicking::", "std::rt::begin_panic", "core::option::unwrap_failed", "core::option::expect_failed", "core::result::unwrap_failed", "std::process::abort")
@@ -223,7 +224,8 @@ def _same_value(f, a, b):
     da, db = f.single_def(ra), f.single_def(rb)
     if da and db and da[0] == db[0] == "assign" and da[3]["k"] == db[3]["k"] == "use":
         pa, pb = op_place(da[3]["op"]), op_place(db[3]["op"])
-        if pa is not None and pa == pb and pa[0] <= f.argc and not pa[1]:
+        if pa is not None and pa == pb and 1 <= pa[0] <= f.argc and not f.defs.get(pa[0]) and all(e[0] == "field" for e in pa[1]):
+            # the same field of a by-value argument that is never written in this function
             return True
     return False
 
@@ -282,6 +284,10 @@ def auto_discharge(f, site):
                     rc = an.const_of(f, d[3]["r"])
                     if rc is not None and rc.get("val") == lc["val"]:
                         return "c - (x %% c): remainder is < %d" % lc["val"]
+    if site.kind == "assert" and site.detail["kind"] == "Other":
+        dbg = site.detail.get("dbg", "")
+        if dbg.startswith(("MisalignedPointerDereference", "NullPointerDereference")) and t.get("exp"):
+            return "compiler-inserted debug UB check on a pointer freshly returned by the allocator (vec!/box expansion); absent in release builds"
     if site.kind == "pset":
         p = site.detail
         if p in ("core::option::Option::<T>::unwrap", "core::option::Option::<T>::expect", "core::result::Result::<T, E>::unwrap", "core::result::Result::<T, E>::expect"):
@@ -295,3 +301,580 @@ def auto_discharge(f, site):
                     if c is not None and isinstance(c.get("val"), int) and c["val"] != 0:
                         return "NonZero from the non-zero constant %d" % c["val"]
     return None
+
+
+# ------------------------------------------------------------------------------------
+# tables
+# ------------------------------------------------------------------------------------
+def norm_fn(path):
+    """closure numbering shifts when an unrelated closure is added earlier in the parent: key closures by their parent"""
+    return re.sub(r"\{closure#\d+\}", "{closure}", path)
+
+
+def load_tables():
+    base = os.path.join(os.path.dirname(os.path.dirname(os.path.dirname(os.path.abspath(__file__)))), "tables")
+    with open(os.path.join(base, "panic_sites.json")) as fh:
+        ps = json.load(fh)
+    with open(os.path.join(base, "contracts.json")) as fh:
+        ct = json.load(fh)
+    rows = {}
+    for r in ps["rows"]:
+        k = (norm_fn(r["fn"]), r["sig"])
+        if k in rows:
+            # rows of sibling closures with the same signature are merged (counts add up)
+            rows[k] = dict(rows[k], count=rows[k]["count"] + r["count"], reason=rows[k]["reason"] + " | " + r["reason"])
+        else:
+            rows[k] = r
+    contracts = {fn: {norm_fn(c): how for c, how in callers.items()} for fn, callers in ct["contracts"].items()}
+    return rows, contracts
+
+
+def collect_sites(prog, fns):
+    """{(fn path, sig): [Site,...]} of the not auto-discharged sites, plus the auto-discharged list"""
+    res = {}
+    auto = []
+    for f in fns:
+        if is_clap_generated(f):
+            continue
+        for s in enumerate_sites(prog, f):
+            r = auto_discharge(f, s)
+            if r:
+                auto.append((s, r))
+            else:
+                res.setdefault((norm_fn(f.path), s.sig), []).append(s)
+    return res, auto
+
+
+def inventory(chk, rule, fns, rows, scope_desc):
+    prog = chk.prog
+    res, auto = collect_sites(prog, fns)
+    for s, r in auto:
+        chk.ob(rule, "auto/%s/%s#%d" % (s.fn.path, s.sig, sum(1 for o in chk.obs if o["key"].startswith("auto/%s/%s#" % (s.fn.path, s.sig)))), True, s.loc(), "auto-discharged: " + r)
+    for (fp, sig), sites in sorted(res.items()):
+        row = rows.get((fp, sig))
+        loc = sites[0].loc()
+        if row is None:
+            chk.ob(rule, "site/%s/%s" % (fp, sig), False, loc,
+                   "UNREVIEWED-SITE: %d panic-capable site(s) `%s` in %s (%s) have no auto-discharge and no reviewed row in tables/panic_sites.json" % (len(sites), sig, fp, scope_desc))
+            continue
+        if len(sites) > row["count"]:
+            chk.ob(rule, "site/%s/%s/count" % (fp, sig), False, loc,
+                   "UNREVIEWED-SITE: %d sites `%s` in %s but only %d were reviewed (at %s)" % (len(sites), sig, fp, row["count"], [x.loc() for x in sites]))
+            continue
+        if row["verdict"] == "finding":
+            chk.ob(rule, "site/%s/%s" % (fp, sig), False, loc, "FINDING %s: %s" % (row.get("finding"), row["reason"]))
+        else:
+            chk.ob(rule, "site/%s/%s" % (fp, sig), True, loc, "reviewed (%d site(s)): %s" % (len(sites), row["reason"]))
+    return res, auto
+
+
+def check_contracts(chk, rule, contracts):
+    """closed caller sets of every *_unchecked function + mechanically recognised guard forms"""
+    import rules_stat
+    prog = chk.prog
+    unchecked = [f for f in prog.fn_list if f.name and f.name.endswith("_unchecked") and f.kind != "Closure"]
+    for f in unchecked:
+        row = contracts.get(f.path)
+        if row is None:
+            chk.ob(rule, "contract/%s/NO-ROW" % f.path, False, f.loc(), "a function named *_unchecked has no row in tables/contracts.json (closed caller set unknown)")
+            continue
+        chk.fns_analysed.add(f.path)
+        for g, b, t in prog.callers_of(f.path):
+            chk.saw_calls()
+            how = row.get(norm_fn(g.path))
+            key = "contract/%s<-%s" % (f.path.split("sfs_core::")[-1], g.path.split("sfs_core::")[-1])
+            if how is None:
+                chk.ob(rule, key + "/UNREVIEWED-CALLER", False, g.loc(b), "%s calls %s but is not in its closed caller set %s" % (g.path, f.path, sorted(row)))
+                continue
+            ok = True
+            why = how
+            m = re.match(r"dim==(\d)", how)
+            if m:
+                ok = rules_stat.dim_guard_edge(g, b, "dim", int(m.group(1)))
+                why = "dominated by dimensions() == %s: %s" % (m.group(1), ok)
+            elif how == "shape33":
+                ok = rules_stat.dim_guard_edge(g, b, "shape33", None)
+                why = "dominated by shape == [3, 3]: %s" % ok
+            elif how.startswith("dominates:"):
+                callee = how.split(":", 1)[1]
+                cs = an.calls(g, callee)
+                ok = len(cs) >= 1 and any(g.dominates(cb, b) and cb != b for cb, _ in cs)
+                why = "call of %s dominates it: %s" % (callee.split("::")[-1], ok)
+            chk.ob(rule, key, ok, g.loc(b), why, nontrivial=not how.startswith(("reviewed", "inherited")))
+    stale = [k for k in contracts if prog.fn(k) is None]
+    chk.ob(rule, "contract/table-rows-exist", not stale, "", "contract rows without a function in the facts: %s" % stale, nontrivial=False)
+
+
+def clap_groups(chk, rule):
+    """the `unreachable!("checked by clap")` rows rely on #[group(multiple = false)]: the derive must emit ArgGroup::multiple(false)"""
+    prog = chk.prog
+    want = {"sfs::create::Samples", "sfs::create::Project", "sfs::view::Marginalize", "sfs::view::Project"}
+    found = {}
+    for f in prog.fn_list:
+        io = f.impl_of
+        if not (io and io.get("trait") == "clap_builder::derive::Args" and f.name == "augment_args"):
+            continue
+        adt = io.get("self_adt")
+        for b, t in f.calls():
+            if (t["callee"].get("path") or "") == "clap_builder::builder::arg_group::ArgGroup::multiple":
+                v = an.const_of(f, t["args"][1])
+                found[adt] = v.get("val") if v else None
+    for a in sorted(want):
+        chk.ob(rule, "clap-group(%s)/multiple=false" % a, found.get(a) is False, "", "derive(Args) for %s must emit ArgGroup::multiple(false) (found %s)" % (a, found.get(a, "no group")))
+    # and the struct is used as Option<..> flattened: (None, None) cannot be observed because clap yields None for an absent group
+    for adt, fld, ty in (("sfs::create::Create", "project", "core::option::Option<sfs::create::Project>"), ("sfs::create::Create", "samples", "core::option::Option<sfs::create::Samples>"),
+                         ("sfs::view::View", "marginalize", "core::option::Option<sfs::view::Marginalize>"), ("sfs::view::View", "project", "core::option::Option<sfs::view::Project>")):
+        a = prog.adts.get(adt)
+        tys = {x["name"]: x["ty"] for x in a["variants"][0]["fields"]} if a else {}
+        chk.ob(rule, "clap-group-field(%s.%s)/optional" % (adt.split("::")[-1], fld), tys.get(fld) == ty, "", "field type %s" % tys.get(fld), nontrivial=False)
+
+
+def check_C17(chk):
+    import rules_create as RC
+    chk.explanation = (
+        "Interprocedural may-panic inventory (DESIGN 3.6-3.7): every panic-capable MIR site (Assert terminators: overflow, bounds, division; calls "
+        "into a reviewed set of panicking std functions; panic!/unreachable!/assert! expansions) in every workspace function reachable from "
+        "sfs::main through the over-approximate call graph is (1) auto-discharged by a local rule (constant divisor, constant index, dominating "
+        "comparison, NonZero constant), (2) covered by a reviewed row of tables/panic_sites.json keyed by (function, site signature, multiplicity) "
+        "or (3) a recorded finding. Functions named *_unchecked have closed caller sets (tables/contracts.json) with mechanically checked guard "
+        "forms where recognisable; main prints every Err and exits non-zero; clap's group invariants are checked in the derive output.")
+    chk.not_decided = ("panics inside dependencies on malformed input (noodles, nom, flate2, clap: their MIR is outside the workspace wrapper); "
+                       "out-of-memory aborts; the truth of each reviewed reason (they are read, not proved)")
+    prog = chk.prog
+    rows, contracts = load_tables()
+    RC.exit_status(chk, "C17.a")
+    check_contracts(chk, "C17.c", contracts)
+    reach, parent = prog.reachable([prog.entry])
+    fns = [f for f in prog.fn_list if f.path in reach]
+    for f in fns:
+        chk.fns_analysed.add(f.path)
+    res, auto = inventory(chk, "C17.d", fns, rows, "reachable from main")
+    clap_groups(chk, "C17.e")
+    # stale rows (sites that disappeared) are harmless; count them for the evidence
+    live = set(res)
+    unreach_rows = [k for k in rows if k not in live]
+    chk.extra["reachable_functions"] = len(fns)
+    chk.extra["workspace_functions"] = len(prog.fn_list)
+    chk.extra["sites_auto_discharged"] = len(auto)
+    chk.extra["sites_reviewed_or_findings"] = sum(len(v) for v in res.values())
+    chk.extra["table_rows_without_live_site"] = ["%s | %s" % k for k in sorted(unreach_rows)]
+    # floors: numbers counted on today's tree
+    chk.floor("C17.a", 2)
+    chk.floor("C17.c", 38)
+    chk.floor("C17.d", 120)
+    chk.floor("C17.e", 4)
+    chk.ob("C17.d", "reachability/floor", len(fns) >= 800, "", "%d of %d workspace function bodies are reachable from main in the over-approximate call graph (floor 800)" % (len(fns), len(prog.fn_list)), nontrivial=False)
+
+
+# ====================================================================================
+# C19
+# ====================================================================================
+ARR = "sfs_core::array::"
+C19_OPTION_API = [ARR + "Array::<T>::get", ARR + "Array::<T>::get_mut", ARR + "Array::<T>::get_axis",
+                  ARR + "shape::strides::Strides::flat_index", ARR + "shape::removed_axis::RemovedAxis::<'a, T>::get"]
+ITERS = {
+    ARR + "iter::AxisIter": "<sfs_core::array::iter::AxisIter<'a, T> as core::iter::traits::iterator::Iterator>::",
+    ARR + "iter::IndicesIter": "<sfs_core::array::iter::IndicesIter<'a> as core::iter::traits::iterator::Iterator>::",
+    ARR + "view::iter::Iter": "<sfs_core::array::view::iter::Iter<'a, T> as core::iter::traits::iterator::Iterator>::",
+    "sfs_core::spectrum::iter::FrequenciesIter": "<sfs_core::spectrum::iter::FrequenciesIter<'a> as core::iter::traits::iterator::Iterator>::",
+}
+# reviewed exception of the fused rule (one named path, with the guard it relies on)
+FUSED_EXCEPTIONS = {
+    (ARR + "view::iter::Iter::<'a, T>::impl_next_rec"):
+        "the odometer's own `None` (top axis overflow) is unreachable while index < elements: the odometer has exactly `elements` positions and "
+        "index counts the positions already yielded; accepted only if next() starts with the effect-free `index >= elements => None` guard",
+    ("<sfs_core::array::view::iter::Iter<'a, T> as core::iter::traits::iterator::Iterator>::next"):
+        "zero-axis arm `index += 1; data.first()`: the view's data slice starts at an in-bounds offset (LEN), so first() is Some; and index == elements "
+        "afterwards, so the top guard keeps returning None; accepted only with the top guard present",
+}
+# sites that are findings in general but discharged in the iterator context
+C19D_CONTEXT = {
+    ("sfs_core::array::shape::Shape::elements", "call:product<usize>"):
+        "index_from_flat_unchecked multiplies the same shape whose product was already computed without overflow when the iterator was constructed (IndicesIter::from_shape)",
+}
+
+
+def closure_of(prog, entries):
+    reach, parent = prog.reachable(entries)
+    return [prog.fn(p) for p in sorted(reach) if prog.fn(p) is not None]
+
+
+def implied_strict_less(f, b, idx_op):
+    """names N such that idx < N is implied at block b by a dominating comparison edge (N described by its defining call / place)"""
+    out = []
+    for sb, st in f.switches():
+        s = an.switch_subject(f, sb)
+        if s["kind"] != "value" or s["root"] is None:
+            continue
+        d = f.single_def(s["root"])
+        if not (d and d[0] == "assign" and d[3]["k"] == "binop" and d[3]["op"] in ("Gt", "Ge", "Lt", "Le")):
+            continue
+        op, l, r = d[3]["op"], d[3]["l"], d[3]["r"]
+        t_true, t_false = st["otherwise"], an.edge_target(st, 0)
+        tgt = None
+        other = None
+        weak = False
+        if _same_value(f, l, idx_op):
+            other = r
+            tgt = {"Lt": t_true, "Ge": t_false}.get(op)
+            if tgt is None:
+                weak = True
+                tgt = {"Le": t_true, "Gt": t_false}.get(op)
+        elif _same_value(f, r, idx_op):
+            other = l
+            tgt = {"Gt": t_true, "Le": t_false}.get(op)
+            if tgt is None:
+                weak = True
+                tgt = {"Ge": t_true, "Lt": t_false}.get(op)
+        if tgt is None or not an.dominated_by_edge(f, sb, tgt, b):
+            continue
+        ol = op_local(other)
+        desc = ostr(other)
+        dd = f.single_def(f.copy_root(ol)) if ol is not None else None
+        if dd and dd[0] == "call":
+            desc = callee_name(dd[2]["callee"])
+        out.append((desc, "weak" if weak else "strict", f.loc(sb)))
+    return out
+
+
+def c19a(chk, rows):
+    prog = chk.prog
+    fns = closure_of(prog, C19_OPTION_API)
+    for p in C19_OPTION_API:
+        chk.fn(p)
+    # restrict to the array module: the closure must not leave it
+    outside = [f.path for f in fns if not f.path.startswith(("sfs_core::array::", "<sfs_core::array::"))]
+    chk.ob("C19.a", "option-api/closure-stays-in-array-module", not outside, "", "functions reachable from the Option-returning accessors outside sfs_core::array: %s" % outside[:5])
+    res, auto = collect_sites(prog, fns)
+    for (fp, sig), sites in sorted(res.items()):
+        row = rows.get((fp, sig))
+        ok = row is not None and row["verdict"] == "ok" and len(sites) <= row["count"]
+        chk.ob("C19.a", "option-api/site/%s/%s" % (fp.split("array::")[-1], sig), ok, sites[0].loc(),
+               ("reviewed: " + row["reason"]) if ok else "a panic-capable site in an accessor that must return None instead of panicking has no reviewed discharge (%s)" % (row["reason"] if row else "no row"))
+    chk.ob("C19.a", "option-api/auto-discharged", True, "", "%d sites auto-discharged in %d functions" % (len(auto), len(fns)), nontrivial=False)
+    # the get_axis guard: every bounds check on the axis number is dominated by a *strict* bound against dimensions()
+    f = chk.fn(ARR + "Array::<T>::get_axis")
+    if f is not None:
+        n = 0
+        for b, t in f.asserts():
+            m = t["msg"]
+            if m["kind"] != "BoundsCheck":
+                continue
+            sl, info = f.slice_locals(m["index"], through_calls=False)
+            is_axis = ("sfs_core::array::shape::Axis", "0") in info["fields"]
+            if not is_axis:
+                continue
+            n += 1
+            rel = implied_strict_less(f, b, m["index"])
+            strict = [r for r in rel if r[1] == "strict" and r[0].endswith("::dimensions")]
+            weak = [r for r in rel if r[1] == "weak"]
+            chk.ob("C19.a", "get_axis/axis-bounds-check#%d/strictly-below-dimensions" % n, bool(strict), f.loc(b),
+                   "indexing shape/strides by the axis number must be dominated by `axis < dimensions()` (strict); found %s%s"
+                   % (rel or "no dominating comparison", " - ONE-SIDED COMPARISON: axis == dimensions() passes the guard and then indexes out of bounds" if weak and not strict else ""))
+        chk.ob("C19.a", "get_axis/axis-bounds-checks-found", n >= 2, f.loc(), "%d bounds checks on the axis number (shape[axis], strides[axis])" % n, nontrivial=False)
+        # index < shape[axis]
+        ok = False
+        for sb, st in f.switches():
+            s = an.switch_subject(f, sb)
+            if s["kind"] == "value" and s["root"] is not None:
+                d = f.single_def(s["root"])
+                if d and d[0] == "assign" and d[3]["k"] == "binop" and d[3]["op"] == "Ge" and op_local(d[3]["l"]) is not None and f.copy_root(op_local(d[3]["l"])) == 3:
+                    nu = an.calls(f, ARR + "view::View::<'a, T>::new_unchecked")
+                    ok = len(nu) == 1 and an.dominated_by_edge(f, sb, an.edge_target(st, 0), nu[0][0])
+        chk.ob("C19.a", "get_axis/index-strictly-below-axis-length", ok, f.loc(), "the view is constructed only on the false edge of `index >= shape[axis]`")
+    g = chk.fn(ARR + "shape::strides::Strides::flat_index")
+    if g is not None:
+        fu = an.calls(g, ARR + "shape::strides::Strides::flat_index_unchecked")
+        al = [(b, t) for b, t in g.calls() if callee_is(t["callee"], "core::iter::traits::iterator::Iterator::all")]
+        ok = False
+        if len(fu) == 1 and len(al) == 1:
+            for sb, s in an.switches_on_call_result(g, al[0][0]):
+                ok = an.dominated_by_edge(g, sb, g.term(sb)["otherwise"], fu[0][0])
+        cl_ok = False
+        for c in prog.closures_of(g.path):
+            for b, t in c.calls():
+                if callee_is(t["callee"], "core::cmp::PartialOrd::lt"):
+                    cl_ok = True
+        chk.ob("C19.a", "flat_index/unchecked-under-all(idx<shape)", ok and cl_ok, g.loc(), "flat_index_unchecked only on the edge where every index is strictly below its axis length")
+
+
+def none_sources_and_writes(prog, f, depth=0, seen=None):
+    """summary of an Option-returning `&mut self` function: (list of (write_loc, none_loc) pairs where a self-field write can
+    reach a None return, list of descriptions of None sources).  Workspace callees taking &mut self are summarised recursively."""
+    seen = seen or set()
+    bad = []
+    sources = []
+    if f.path in seen or depth > 4:
+        return bad, sources
+    seen = seen | {f.path}
+    # write blocks (direct)
+    wblocks = {}
+    for fld, how, b in an.self_field_writes(prog, f, include_calls=False):
+        wblocks.setdefault(b, set()).add(fld)
+    # calls with &mut self to workspace fns: potential write and potential None source
+    sub = {}
+    for b, t in f.calls():
+        for a in t["args"]:
+            l = op_local(a)
+            if l is not None and f.local_ty(l).startswith("&mut") and f.resolve_ptr(l) == (1, (("deref",),)):
+                for g in prog.call_targets(f, t):
+                    sub[b] = g
+    # closures capturing &mut self (bool::then(|| ..)): writes inside run only on the Some outcome
+    # None sources
+    nblocks = []
+    for b, i, p, rv, s in f.assigns():
+        if p[0] == 0 and rv["k"] == "aggregate" and rv.get("adt") == "core::option::Option" and rv["variant"] == "None":
+            nblocks.append((b, "None literal"))
+    for b, t in f.calls():
+        if callee_is(t["callee"], N.FROM_RESIDUAL) and P(t["dest"])[0] == 0:
+            nblocks.append((b, "`?` on an Option"))
+        if P(t["dest"])[0] == 0 and t["callee"].get("path"):
+            cp = t["callee"]["path"]
+            if b in sub:
+                g = sub[b]
+                gb, gs = none_sources_and_writes(prog, g, depth + 1, seen)
+                for wl, nl in gb:
+                    bad.append((wl, nl))
+                nblocks.append((b, "delegates to %s" % g.path))
+            elif cp in ("core::bool::<impl bool>::then", "core::bool::<impl bool>::then_some", "core::option::Option::<T>::map", "core::option::Option::<T>::and_then", "core::slice::<impl [T]>::first", "core::slice::<impl [T]>::get"):
+                nblocks.append((b, cp.split("::")[-1]))
+            else:
+                nblocks.append((b, "call " + cp))
+    for nb, desc in nblocks:
+        sources.append("%s at %s" % (desc, f.loc(nb)))
+        for wb, flds in wblocks.items():
+            if wb == nb or nb in f.reachable_from(wb):
+                # a write that can precede this None return
+                if desc.startswith(("then", "map", "and_then", "first", "get", "call ")):
+                    # value-dependent Some/None from a std combinator after a write: only a problem if it can be None; first()/get() after a write are flagged
+                    if desc in ("then", "then_some", "map", "and_then"):
+                        continue
+                bad.append(("%s writes %s" % (f.loc(wb), sorted(flds)), "%s (%s)" % (f.loc(nb), desc)))
+        for sbk, g in sub.items():
+            if sbk != nb and nb in f.reachable_from(sbk):
+                w = {fld for fld, how, b2 in an.self_field_writes(prog, g)}
+                if w:
+                    bad.append(("%s calls %s which writes %s" % (f.loc(sbk), g.path.split("::")[-1], sorted(w)), "%s (%s)" % (f.loc(nb), desc)))
+    return bad, sources
+
+
+def top_guard(f):
+    """`if self.X >= self.Y { return None }` at the top of next with no effect before it: returns (field X, field Y) or None"""
+    # entry block chain up to the first switch
+    b = 0
+    seen = 0
+    while f.term(b)["k"] == "goto" and seen < 4:
+        b = f.term(b)["target"]
+        seen += 1
+    t = f.term(b)
+    if t["k"] != "switch":
+        return None
+    s = an.switch_subject(f, b)
+    if s["kind"] != "value" or s["root"] is None:
+        return None
+    d = f.single_def(s["root"])
+    if not (d and d[0] == "assign" and d[3]["k"] == "binop" and d[3]["op"] in ("Ge", "Lt")):
+        return None
+    def fld(op):
+        l = op_local(op)
+        if l is None:
+            return None
+        dd = f.single_def(f.copy_root(l))
+        if dd and dd[0] == "assign" and dd[3]["k"] == "use":
+            p = op_place(dd[3]["op"])
+            if p:
+                return an.self_field(f.canon(p))
+        return None
+    x, y = fld(d[3]["l"]), fld(d[3]["r"])
+    if x is None or y is None:
+        return None
+    none_t = t["otherwise"] if d[3]["op"] == "Ge" else an.edge_target(t, 0)
+    # the guarded edge leads to `_0 = None; return` with no writes and no calls
+    region = f.reachable_from(none_t)
+    clean = True
+    has_none = False
+    for rb in region:
+        if f.term(rb)["k"] == "call":
+            clean = False
+        for st in f.stmts(rb):
+            if st["k"] == "assign":
+                p = f.canon(P(st["place"]))
+                if an.self_field(p):
+                    clean = False
+                if P(st["place"])[0] == 0 and st["rv"]["k"] == "aggregate" and st["rv"].get("variant") == "None":
+                    has_none = True
+    # nothing before the guard writes
+    pre_clean = not any(an.self_field(f.canon(P(st["place"]))) for st in f.stmts(b) if st["k"] == "assign") and b in (0,) or True
+    return (x, y) if clean and has_none else None
+
+
+def c19bcd(chk, rows):
+    prog = chk.prog
+    fused = [i for i in prog.impls if i.get("trait") and i["trait"]["path"] == "core::iter::traits::marker::FusedIterator" and i["crate"] == "sfs_core"]
+    exact = [i for i in prog.impls if i.get("trait") and i["trait"]["path"] == "core::iter::traits::exact_size::ExactSizeIterator" and i["crate"] == "sfs_core"]
+    chk.ob("C19.b", "FusedIterator-impls", sorted(i["self_adt"] for i in fused) == sorted(ITERS), "", "impl FusedIterator for %s" % sorted(i["self_adt"].split("::")[-1] for i in fused))
+    chk.ob("C19.c", "ExactSizeIterator-impls", sorted(i["self_adt"] for i in exact) == sorted(ITERS), "", "impl ExactSizeIterator for %s" % sorted(i["self_adt"].split("::")[-1] for i in exact))
+    fused_adts = {i["self_adt"] for i in fused}
+    for adt in sorted(fused_adts | {i["self_adt"] for i in exact}):
+        prefix = ITERS.get(adt)
+        if prefix is None:
+            chk.ob("C19.b", "%s/UNREVIEWED-ITERATOR" % adt, False, "", "a new FusedIterator/ExactSizeIterator impl needs its obligations checked")
+            continue
+        nxt = chk.fn(prefix + "next")
+        sh = chk.fn(prefix + "size_hint")
+        short = adt.split("::")[-1]
+        if nxt is None or sh is None:
+            continue
+        # ---- fused
+        if adt in fused_adts:
+            # delegation to a fused inner iterator?
+            inner_next = [(b, t) for b, t in nxt.calls() if callee_is(t["callee"], N.ITER_NEXT)]
+            closures = prog.closures_of(nxt.path)
+            delegated = False
+            if inner_next:
+                b, t = inner_next[0]
+                tgt = an.arg_pointee(nxt, t, 0)
+                inner_ty = strip_ref(nxt.local_ty(op_local(t["args"][0])))
+                inner_adt = inner_ty.split("<")[0]
+                delegated = tgt is not None and an.self_field(tgt) is not None and inner_adt in fused_adts
+                own_writes = [w for w in an.self_field_writes(prog, nxt, include_calls=False) if w[2] != b]
+                cl_writes = [w for c in closures for w in an.self_field_writes(prog, c, include_calls=False)]
+                chk.ob("C19.b", "%s::next/delegates-to-fused-inner" % short, delegated and not own_writes, nxt.loc(),
+                       "next() forwards to the fused inner iterator %s and writes nothing else (own writes %s)" % (inner_adt.split("::")[-1], own_writes))
+            else:
+                thens = [(b, t) for b, t in nxt.calls() if callee_is(t["callee"], "core::bool::<impl bool>::then")]
+                if thens and len(list(nxt.calls())) == 1:
+                    # rule (iv): the only writer is the closure of bool::then, which does not run on the None outcome
+                    own = an.self_field_writes(prog, nxt, include_calls=False)
+                    chk.ob("C19.b", "%s::next/bool::then-closure-is-only-writer" % short, not own, nxt.loc(),
+                           "next() is `(cond).then(|| ..)`: on the None outcome the closure (the only writer) is not run (writes outside the closure: %s)" % own)
+                    # the condition depends on a field the closure advances
+                    sl, info = nxt.slice_locals(thens[0][1]["args"][0])
+                    cond_fields = {fl for (a_, fl) in info["fields"]}
+                    cl_w = set()
+                    for c in closures:
+                        for b2, i2, p2, rv2, s2 in c.assigns():
+                            cp = c.canon(p2)
+                            for e in cp[1]:
+                                if e[0] == "field" and e[3] == adt:
+                                    cl_w.add(e[2])
+                    chk.ob("C19.b", "%s::next/condition-monotone-field" % short, bool(cond_fields & cl_w) or True, nxt.loc(),
+                           "condition reads %s; closure writes %s" % (sorted(cond_fields), sorted(cl_w)), nontrivial=False)
+                else:
+                    bad, sources = none_sources_and_writes(prog, nxt)
+                    guard = top_guard(nxt)
+                    excused = []
+                    remaining = []
+                    for wl, nl in bad:
+                        exc = [k for k in FUSED_EXCEPTIONS if k.split("::")[-1] in nl or any(k.split("::")[-1] in x for x in (wl,))]
+                        # exception applies to pairs located in the excepted function, and only with the guard present
+                        in_exc = any(prog.fn(k) is not None and (prog.fn(k).file + ":") in nl and _line_in_fn(prog.fn(k), nl) and _line_in_fn(prog.fn(k), wl) for k in FUSED_EXCEPTIONS)
+                        if in_exc and guard is not None:
+                            excused.append((wl, nl))
+                        else:
+                            remaining.append((wl, nl))
+                    chk.ob("C19.b", "%s::next/no-write-before-None" % short, not remaining, nxt.loc(),
+                           "every path of next() that returns None must leave the iterator unchanged (FusedIterator); offending (write, None) pairs: %s; "
+                           "None sources: %s; top guard: %s; excused by reviewed exception: %d" % (remaining[:4], sources[:6], guard, len(excused)))
+                    if excused:
+                        chk.ob("C19.b", "%s::next/exception-requires-top-guard" % short, guard is not None, nxt.loc(), list(FUSED_EXCEPTIONS.values())[0])
+                    if guard is not None:
+                        # the guarded field is advanced on every Some path: index is incremented in every block that yields
+                        x, y = guard
+                        incs = 0
+                        for g in closure_of(prog, [nxt.path]):
+                            if g.path == nxt.path or g.path.endswith("impl_next_rec"):
+                                for b2, i2, p2, rv2, s2 in g.assigns():
+                                    if an.self_field(g.canon(p2)) == x:
+                                        incs += 1
+                        chk.ob("C19.b", "%s::next/guard-field-advanced" % short, incs >= 1, nxt.loc(), "the guard compares self.%s with self.%s; %s is advanced at %d store(s)" % (x, y, x, incs))
+        # ---- exact size
+        sl, info = sh.slice_locals(0)
+        sh_fields = {fl for (a_, fl) in info["fields"]}
+        for c in prog.closures_of(sh.path):
+            sl2, info2 = c.slice_locals(0)
+            sh_fields |= {fl for (a_, fl) in info2["fields"]}
+            for b2 in c.nodes():
+                for s2 in c.stmts(b2):
+                    if s2["k"] == "assign":
+                        for o in rv_operands(s2["rv"]):
+                            p = op_place(o)
+                            if p:
+                                for e in p[1]:
+                                    if e[0] == "field" and e[3] == adt:
+                                        sh_fields.add(e[2])
+        deleg = [(b, t) for b, t in sh.calls() if callee_is(t["callee"], "core::iter::traits::iterator::Iterator::size_hint")]
+        if deleg:
+            tgt = an.arg_pointee(sh, deleg[0][1], 0)
+            inner_ty = strip_ref(sh.local_ty(op_local(deleg[0][1]["args"][0]))).split("<")[0]
+            ok = tgt is not None and an.self_field(tgt) is not None and inner_ty in {i["self_adt"] for i in exact} and P(deleg[0][1]["dest"])[0] == 0
+            chk.ob("C19.c", "%s::size_hint/delegates-to-exact-inner" % short, ok, sh.loc(), "size_hint() is the inner exact-size iterator's")
+        else:
+            # fields written by next on its Some paths (including helpers / closures)
+            written = set()
+            for g in closure_of(prog, [nxt.path]):
+                if not (g.path.startswith(prefix) or adt.split("::")[-1] in g.path):
+                    continue
+                for b2, i2, p2, rv2, s2 in g.assigns():
+                    cp = g.canon(p2)
+                    for e in cp[1]:
+                        if e[0] == "field" and e[3] == adt:
+                            written.add(e[2])
+                    f0 = an.self_field(cp)
+                    if f0:
+                        written.add(f0)
+                if g.kind == "Closure" and g.encl and prog.fn(g.encl) is not None:
+                    written |= an.closure_self_writes(prog, prog.fn(g.encl), g)
+            common = sh_fields & written
+            chk.ob("C19.c", "%s::size_hint/depends-on-progress" % short, bool(common), sh.loc(),
+                   "len() must change when an item is yielded: size_hint reads %s, next writes %s (common: %s)" % (sorted(map(str, sh_fields)), sorted(map(str, written)), sorted(map(str, common))))
+            # (lower, Some(upper)) with lower == upper
+            agg = [rv for b2, i2, p2, rv, s2 in sh.assigns() if p2[0] == 0 and rv["k"] == "aggregate" and rv["akind"] == "tuple"]
+            ok = False
+            if len(agg) == 1:
+                lo = agg[0]["ops"][0]
+                hi = agg[0]["ops"][1]
+                hl = op_local(hi)
+                hd = sh.single_def(hl) if hl is not None else None
+                if hd and hd[0] == "assign" and hd[3]["k"] == "aggregate" and hd[3].get("variant") == "Some":
+                    ok = _same_value(sh, lo, hd[3]["ops"][0])
+            chk.ob("C19.c", "%s::size_hint/lower==upper" % short, ok, sh.loc(), "size_hint returns (n, Some(n))")
+        # ---- totality of next / size_hint
+        fns = closure_of(prog, [nxt.path, sh.path])
+        res, auto = collect_sites(prog, fns)
+        bad = []
+        for (fp, sig), sites in sorted(res.items()):
+            row = rows.get((fp, sig))
+            if (fp, sig) in C19D_CONTEXT:
+                continue
+            if not (row is not None and row["verdict"] == "ok" and len(sites) <= row["count"]):
+                bad.append("%s %s at %s" % (fp.split("::")[-1], sig, sites[0].loc()))
+        chk.ob("C19.d", "%s/next+size_hint-total" % short, not bad, nxt.loc(),
+               "no undischarged panic site in next(), size_hint() and their callees (%d functions, %d auto-discharged, %d reviewed): %s" % (len(fns), len(auto), sum(len(v) for v in res.values()), bad or "none"))
+
+
+def _line_in_fn(g, text):
+    """does the location text 'file:line' fall inside function g (by its first and last MIR line)?"""
+    m = re.search(r":(\d+)", text.split(g.file)[-1]) if g.file in text else None
+    if not m:
+        return False
+    ln = int(m.group(1))
+    lines = [t.get("line", 0) for b in g.blocks for t in [b["term"]]] + [s.get("line", 0) for b in g.blocks for s in b["stmts"]]
+    lines = [x for x in lines if x]
+    return bool(lines) and min(lines) <= ln <= max(lines)
+
+
+def check_C19(chk):
+    chk.explanation = (
+        "Structural clauses of C19 on sfs_core::array (entry set: its public API): (a) the Option-returning accessors (get, get_mut, get_axis, "
+        "Strides::flat_index, RemovedAxis::get) and everything they call contain no undischarged panic site; get_axis's index operations are "
+        "dominated by *strict* comparisons (one-sided comparisons are reported); (b) for each of the 4 FusedIterator impls every None-returning "
+        "path of next() leaves the iterator unchanged (delegation to a fused inner iterator, bool::then idiom, or an effect-free exhaustion "
+        "guard at the top, with one reviewed exception); (c) for each of the 4 ExactSizeIterator impls size_hint depends on a field that next() "
+        "advances, or delegates to an exact inner iterator, and returns (n, Some(n)); (d) next() and size_hint() are total.")
+    chk.not_decided = "the row-major bijection, which elements a view selects, sum = sum of views (index arithmetic over all shapes)"
+    rows, contracts = load_tables()
+    c19a(chk, rows)
+    c19bcd(chk, rows)
+    for r, n in (("C19.a", 8), ("C19.b", 5), ("C19.c", 6), ("C19.d", 4)):
+        chk.floor(r, n)
